@@ -27,7 +27,12 @@
 //     the proxy's graceful shutdown starts while transfers of burst + ≥ 3 s of rate are in flight; the
 //     same bound over the whole transfer (the model's wait takes the state of its context as an input
 //     and Conn's context is never done: c20_bound_survives_listener_close; a context that Close cancels:
-//     c20_cancelled_context_witness).
+//     c20_cancelled_context_witness);
+//   - "xfer" in mode "stack" (stack.go): the same transfer clauses through forwarder.Listener in every stacking
+//     the product builds ({plain, TLS} x {PROXY protocol off, v1, v2} x {traffic tracking off, on} x {read
+//     limit, write limit, both}) and through the full proxy behind a PROXY-protocol listener (the model's
+//     listener value chain: c20_every_stacking_is_limited; a PROXY wrapper handed the raw listener next to
+//     the limiter: c20_sibling_proxy_drops_limits_witness).
 package c20
 
 import (
@@ -74,7 +79,7 @@ type ctorCase struct {
 
 type xferCase struct {
 	Kind       string `json:"kind"` // "xfer"
-	Mode       string `json:"mode"` // "listener" | "proxy-http" | "proxy-connect"
+	Mode       string `json:"mode"` // "listener" | "stack" | "proxy-http" | "proxy-connect"
 	ReadLimit  int64  `json:"read_limit"`
 	WriteLimit int64  `json:"write_limit"`
 	Conns      int    `json:"conns"`
@@ -96,6 +101,11 @@ type xferCase struct {
 	// started (proxy modes: Run's context is cancelled, --shutdown-timeout far beyond the transfer); the
 	// transfers go on over the accepted connections and the same bound is judged on the whole of them.
 	CloseAtMs int `json:"close_at_ms,omitempty"`
+	// stacking (stack.go): mode "stack" drives forwarder.Listener with these layers around the limiter; the proxy
+	// modes take ProxyProto (the proxy's listener expects a PROXY header, the clients send one of that version).
+	ProxyProto string `json:"proxy_protocol,omitempty"` // "" = off | "v1" | "v2"
+	TLS        bool   `json:"tls,omitempty"`
+	Track      bool   `json:"track_traffic,omitempty"`
 }
 
 // timed = a case in which deadlines are armed on the rate-limited connections.
@@ -585,7 +595,12 @@ func Run(ctx *core.Ctx) {
 		"allowed = the model's own-limit time + 6 × the control's excess + 400 ms, a shortfall must repeat in 3 attempts; hashes equal. " +
 		"(f) lifecycle cases: transfers of burst + ≥ 3 s of rate in flight when ratelimit.Listener.Close is called (1-3 accepted connections) resp. the graceful shutdown of forwarder.HTTPProxy starts " +
 		"(Run's context cancelled 300-700 ms after the start, once every connection is moving data; shutdown timeout 10 min; downloads + uploads, tunnels): the bound of (c) over the whole transfer, " +
-		"single-connection call trace against the model's history with the lifecycle event in place. distinct = distinct canonical inputs")
+		"single-connection call trace against the model's history with the lifecycle event in place. " +
+		"(g) stacking cases: the clauses of (c) through forwarder.Listener (Listen/Accept) in every stacking: {plain, TLS} x {PROXY protocol off, v1 header, v2 header} x {traffic tracking off, on} x " +
+		"{read limit only, write limit only, both} (36 per round, 1-3 connections, 16-64 KiB calls, limits 1-2 MiB/s, thorough also 512 KiB/s and 8 MiB/s), each throttled direction carrying burst + 0.8-1.2 s of rate " +
+		"(thorough 1.5-3 s), an unthrottled one burst + 3 s of the other direction's rate; downloads judged on the raw bytes the client's socket delivers (below TLS, handshake done before the clock starts), uploads on the payload " +
+		"the accepted connection hands over (above TLS); w = the chunk (plain) or 64 KiB (TLS: the calls are crypto/tls's); which limiters the connection carries is the model's answer for the stack (verb stackwiring); " +
+		"plus the full proxy started with a PROXY-protocol listener (plain requests and tunnels, v1 and v2 clients, read / write / both limits). distinct = distinct canonical inputs")
 	ctx.Assume("golang.org/x/time/rate v0.12.0 is trusted; its reserve arithmetic is the modelled fact (float64 there, exact integers in the model; compared ±1 µs)")
 	ctx.Assume("wall-clock behaviour (timers, scheduler, kernel socket buffers) is sampled, not proved: only one-sided bounds are asserted; the model treats a call's I/O as atomic at one instant and calls as reaching the limiter in time order")
 	ctx.Assume("jitter: concurrent WaitN callers reach the bucket with time stamps out of order and x/time/rate credits every backward step twice (c20_throughput_bound_jitter_partial states the bound with that term); it cannot be observed from outside, the wall-clock bound allows 20 ms + 3 % of the elapsed time for it")
@@ -664,9 +679,11 @@ func Run(ctx *core.Ctx) {
 	// (c) wall clock; (e) the full-duplex cases run beside them
 	xfers := genXfers(ctx)
 	duplex := genDuplex(ctx, ctx.Rng.Sub())
+	stack := genStack(ctx, ctx.Rng.Sub()) // (g) the stacking cases: a pool of their own beside the others
 	var dwg sync.WaitGroup
-	dwg.Add(1)
+	dwg.Add(2)
 	go func() { defer dwg.Done(); runDuplex(ctx, duplex) }()
+	go func() { defer dwg.Done(); runXfers(ctx, stack) }()
 	runXfers(ctx, xfers)
 	dwg.Wait()
 }
